@@ -346,6 +346,11 @@ def runSched (j : Json) : Json :=
           let i := b + (k : Int)
           !(e.onShift r i && !e.leaveMark r i) || (usageOf (σ.led.get r i).usage t).isSome ||
             pre.any (fun t' => (usageOf (σ.led.get r i).usage t').isSome) || exhaustedB e σ t r i))))
+  -- C06.start_le_end (single resource, one primary + one alternative)
+  let orderedFail := (eligSched ++ altTasks).filter (fun t =>
+    match (σ.tst t).start, (σ.tst t).stop with
+    | some s, some v => !decide (s ≤ v)
+    | _, _ => true)
   -- C06.framed_with_alternative: framed on one of the two candidates
   let altFrameFail := altTasks.filter (fun t =>
     !(((e.taskD t).alloc ++ (e.taskD t).alt).any (fun r => framedB e σ t r)))
@@ -424,6 +429,7 @@ def runSched (j : Json) : Json :=
                          ("one_set_fail", Json.num (JsonNumber.fromNat oneSetFail.length)),
                          ("alt_tasks", Json.num (JsonNumber.fromNat altTasks.length)), ("alt_effort_fail", Json.num (JsonNumber.fromNat altFail.length)),
                          ("alt_framed_fail", Json.num (JsonNumber.fromNat altFrameFail.length)),
+                         ("ordered_fail", Json.num (JsonNumber.fromNat orderedFail.length)),
                          ("alt_idle_tasks", Json.num (JsonNumber.fromNat altIdleTasks.length)), ("alt_idle_fail", Json.num (JsonNumber.fromNat altIdleFail.length)),
                          ("alt_fit_fail", Json.num (JsonNumber.fromNat altFitFail.length)),
                          ("alt_alap_tasks", Json.num (JsonNumber.fromNat altAlapTasks.length)), ("alt_alap_idle_fail", Json.num (JsonNumber.fromNat altAlapIdleFail.length)),
